@@ -168,7 +168,7 @@ pub fn run_incr_case(case: &Case, env: &Env, focus: &str) -> CaseOut {
     std::fs::create_dir_all(&ctl).unwrap();
     let ctl_s = ctl.to_string_lossy().into_owned();
     let prof = Profile {
-        gen: GenOpts { max_steps: 6, regen_pct: 0, phony_dirtying: false, undeclared_pool_pct: 0, ..GenOpts::default() },
+        gen: GenOpts { max_steps: 6, regen_pct: 0, phony_dirtying: false, undeclared_pool_pct: 0, rsp_pct: 45, ..GenOpts::default() },
         edits: [0, 4, 1, 1, 1, 0, 2, 1, 1, 4, 2, 1, 3, 1],
         fault_pct: if focus == "C05" { 60 } else { 15 },
         kill_pct: 0,
